@@ -135,8 +135,34 @@ def load_contracts():
     return contracts.load_all()
 
 
+CURRENT = []
+
+
+def run_main(main):
+    """Entry point wrapper: an exception that escapes from the REAL code (innermost frame under $VERIF_REPO) on an input the
+    harness built is an outcome (`no_raise` violated, traceback in the witness), not a checker error; an exception raised by
+    the harness itself still is one."""
+    try:
+        return main()
+    except Exception as e:
+        tb = traceback.extract_tb(e.__traceback__)
+        inner = tb[-1].filename if tb else ''
+        site_pkgs = '/site-packages/'
+        real = [f for f in tb if os.path.abspath(f.filename).startswith(os.path.abspath(REPO) + os.sep)]
+        if not CURRENT or not real or not (os.path.abspath(inner).startswith(os.path.abspath(REPO) + os.sep) or site_pkgs in inner):
+            raise
+        h = CURRENT[-1]
+        fr = real[-1]
+        h.evaluations += 1
+        h.fail(f'{fr.name}.no_raise', {'raised': f'{type(e).__name__}: {e}', 'at': f'{os.path.relpath(fr.filename, REPO)}:{fr.lineno}',
+                                       'harness_step': f'{os.path.basename(tb[0].filename)}:{[f for f in tb if f.filename.endswith(os.path.basename(tb[0].filename))][-1].lineno}'},
+               ''.join(traceback.format_exception_only(type(e), e)).strip())
+        return h.finish()
+
+
 class Harness:
     def __init__(self, pid):
+        CURRENT.append(self)
         ap = argparse.ArgumentParser()
         ap.add_argument('--tier', default='quick')
         ap.add_argument('--seed', type=int, default=0)
